@@ -127,3 +127,25 @@ CLAIMED['C13'] = (
     'that are inputs) and its satisfiability checked through the C05 path.',
     NOTE_COMMON + 'End-to-end miter theorem pending the composition theorem of C10 (partial). Operands unmodified: correspondence-only.',
     'Lean 4 proof (OR-of-XORs stage, frame theorem) + exact correspondence + exhaustive evaluation oracle')
+CLAIMED['C03'] = (
+    'DESIGN.md 5/C03',
+    'Theorems for every circuit satisfying the C02 invariant: RemoveRedundantGates (both modes) returns a circuit made of gates of the '
+    'argument only (never larger, every valuation of the argument is a valuation of the result, so identical truth table by uniqueness), '
+    'with the same output list, the same inputs in the same order (all of them unless removal was requested, then exactly those it '
+    'contains), and the invariant again; the same for every pipeline of such passes. All four passes, Transformer linearisation/reduction '
+    'and cleanup are modelled one-to-one and compared with the code field by field on every run (circuits over all gate families, '
+    'repeated/degenerate operands, dead logic, outputs that are inputs or repeated); the search compares truth table, interface and size '
+    'of argument and result of the real passes and pipelines and that the argument is left untouched.',
+    NOTE_COMMON + 'Preservation theorems for MergeUnaryOperators / MergeDuplicateGates / MergeEquivalentGates and pipelines containing '
+    'them are not proved yet (partial; correspondence + oracle). "Argument not modified" is correspondence-only.',
+    'Lean 4 proof (DFS reachability invariant, rebuild fold invariant) + field-exact correspondence + truth-table oracle')
+CLAIMED['C18'] = (
+    'DESIGN.md 5/C18',
+    'Theorems: RemoveRedundantGates returns exactly the gates reachable from the outputs (DFS exit set = reachability closure), plus all '
+    'inputs unless removal was requested, each gate unchanged; Transformer pipelines: apply_transformers, the pipe operator and cleanup '
+    'equal manual sequencing of the linearised constituent passes, given idempotence of RemoveRedundantGates (reduction drops only a '
+    'RemoveRedundantGates equal to its predecessor). Postconditions of the merging passes, idempotence of RRG and pipeline=sequencing '
+    'are checked on the real code on every run; the passes and the pipeline machinery are modelled one-to-one and compared exactly.',
+    NOTE_COMMON + 'RRG idempotence is a hypothesis of the pipeline theorems (checked on the code and the model on every run, not yet proved); '
+    'postcondition theorems of MDG/MEG/MUO not proved yet (partial).',
+    'Lean 4 proof (DFS exit-set exactness, list induction over linearisation/reduction) + exact correspondence + postcondition oracles')
